@@ -51,6 +51,7 @@ Mut(g) ==
     Case("G2_mixed", Std(g, g), LowerFirstLetter(g), LowerFirstLetter(g), g, "HEADER_PROT_UPPER", "ifndef", 1),
     Case("G3_no_define", <<HeaderLine, Empty, Ifndef(1), Empty>> \o BodyLines \o <<Endif>>, g, g, g, "HEADER_PROT_NODEF", "endif", 1),
     Case("G3_define_other", Std(g, g), g, Other, g, "HEADER_PROT_NODEF", "endif", 1),
+    Case("G3_no_define_other_macro", <<HeaderLine, Empty, Ifndef(1), Empty, InnerDefine, Empty>> \o BodyLines \o <<Endif>>, g, g, g, "HEADER_PROT_NODEF", "endif", 1),
     Case("G4_second_after", <<HeaderLine, Empty, Ifndef(1), Define(2), Empty>> \o BodyLines \o <<Endif, Empty, Ifndef(3), Define(3), Empty, Proto2, Empty, Endif>>,
          g, g, Other, "HEADER_PROT_MULT", "ifndef", 2),
     Case("G4_nested", <<HeaderLine, Empty, Ifndef(1), Define(2), Empty, Line("ifndef", "IsPreprocessorStatement", <<L("# ifndef ", 9), Slot("sym", 0, 3)>>),
@@ -69,7 +70,7 @@ GCases == UNION {{[name |-> HName(st), isc |-> FALSE, mut |-> mu] : mu \in Mut(G
                          : mu \in Mut(GuardOf(HName(st)))} : st \in {<<"a">>, <<"z", "0">>, <<"a", "_">>}}
 GInit == /\ gcase \in GCases
          /\ prog = gcase.mut.lines /\ phase = "done" /\ nfun = 0 /\ body = 0 /\ open = <<>> /\ elseOK = 0
-         /\ ndecl = 0 /\ viol = NoViol /\ scope = << [name |-> "GlobalScope", multi |-> FALSE] >>
+         /\ ndecl = 0 /\ viol = NoViol /\ scope = << [name |-> "GlobalScope", multi |-> FALSE] >> /\ wrapped = FALSE
 GNext == UNCHANGED <<nvars, gcase>>
 GSpec == GInit /\ [][GNext]_<<nvars, gcase>>
 
